@@ -84,13 +84,14 @@ Proof.
     destruct (tx_gen_val _ _ _ _ _ _ _ _ _ HA Hb) as [Hf Hv].
     cbn [Eg e_validate e_P e_cap] in H.
     destruct (true && (eff_cap P c0 <? bb + (gb + t_len (fst s)))) eqn:Hsp; [discriminate|].
+    destruct (negb (t_gidok (fst s))) eqn:Hgd; [discriminate|].
     inv_bind H as [[c2 ss2] gb2]. inversion H; subst.
     destruct (IH _ _ _ _ _ HA Hb0) as [Hm Hl].
     split; [cbn; rewrite Hf, Hm; reflexivity|].
     (* what fits under the node-local cap fits under the protocol's limit *)
     assert (Hsp' : true && (p_maxbytes P <? bb + (gb + t_len (fst s))) = false).
     { cbn [andb] in *. apply N.ltb_ge in Hsp. apply N.ltb_ge. pose proof (eff_cap_le P c0). lia. }
-    cbn [group_loop]. rewrite Hv. cbn [bind Ev e_validate e_P e_cap]. rewrite Hf, Hsp', Hl. reflexivity.
+    cbn [group_loop]. rewrite Hv. cbn [bind Ev e_validate e_P e_cap]. rewrite Hf, Hsp', Hgd, Hl. reflexivity.
 Qed.
 
 Lemma loop_val_fixed : forall P r L parent bb txs c gb c' ss gb',
@@ -102,6 +103,7 @@ Proof.
   - cbn [group_loop] in H. inv_bind H as [c1 s1].
     destruct (tx_val_inv _ _ _ _ _ _ _ _ _ HA Hb) as (l1 & _ & Hs & _). subst s1.
     destruct (e_validate (Ev P r) && _); [discriminate|].
+    destruct (negb (t_gidok _)); [discriminate|].
     inv_bind H as [[c2 ss2] gb2]. inversion H; subst.
     f_equal. eapply IH; eauto.
 Qed.
@@ -122,6 +124,7 @@ Proof.
   rewrite Ha1 in Ha2. inversion Ha2; subst.
   cbn [fst] in *.
   destruct (e_validate (Ev P r) && _); [discriminate|].
+  destruct (negb (t_gidok tx)); [discriminate|].
   inv_bind H1 as q1. inv_bind H2 as q2. f_equal. eapply IH; eauto.
 Qed.
 
